@@ -77,7 +77,7 @@ fn hx(b: &[u8]) -> Value {
     json!(hex::encode(b))
 }
 
-fn seq(a: &M2Animation, f: &Fields) -> Value {
+fn seq(a: &M2Animation, f: &Fields, l: bool) -> Value {
     let mut m = Map::new();
     m.insert("animation_id".into(), json!(a.animation_id));
     m.insert("sub_animation_id".into(), json!(a.sub_animation_id));
@@ -87,18 +87,18 @@ fn seq(a: &M2Animation, f: &Fields) -> Value {
     m.insert("frequency".into(), json!(a.frequency));
     m.insert("padding".into(), json!(a.padding));
     if f.seq_vanilla {
-        m.insert("end_timestamp".into(), json!(a.end_timestamp));
+        m.insert("end_timestamp".into(), opt(a.end_timestamp.map(|x| json!(x)), l));
         m.insert(
             "replay".into(),
-            json!(a.replay.map(|r| [r.minimum.to_bits(), r.maximum.to_bits()])),
+            opt(a.replay.map(|r| json!([r.minimum.to_bits(), r.maximum.to_bits()])), l),
         );
     }
     if f.seq_bc {
-        m.insert("minimum_extent".into(), json!(a.minimum_extent.map(|e| e.map(f32::to_bits))));
-        m.insert("maximum_extent".into(), json!(a.maximum_extent.map(|e| e.map(f32::to_bits))));
-        m.insert("extent_radius".into(), json!(a.extent_radius.map(f32::to_bits)));
-        m.insert("next_animation".into(), json!(a.next_animation));
-        m.insert("aliasing".into(), json!(a.aliasing));
+        m.insert("minimum_extent".into(), opt(a.minimum_extent.map(|e| json!(e.map(f32::to_bits))), l));
+        m.insert("maximum_extent".into(), opt(a.maximum_extent.map(|e| json!(e.map(f32::to_bits))), l));
+        m.insert("extent_radius".into(), opt(a.extent_radius.map(|x| json!(x.to_bits())), l));
+        m.insert("next_animation".into(), opt(a.next_animation.map(|x| json!(x)), l));
+        m.insert("aliasing".into(), opt(a.aliasing.map(|x| json!(x)), l));
     }
     Value::Object(m)
 }
@@ -172,8 +172,12 @@ macro_rules! raw_list {
     };
 }
 
-pub fn model(m: &M2Model, f: &Fields) -> Value {
-    let mut o = Map::new();
+/// Canonical content as an ordered list of (section, value) in the order the writer emits the
+/// sections, so that the first difference reported is the one closest to its cause.
+/// `lenient`: `None` in a version-dependent optional field means "unspecified" (converter output
+/// keeps the source version's options) and matches whatever default the writer chose.
+pub fn model(m: &M2Model, f: &Fields, lenient: bool) -> Vec<(String, Value)> {
+    let mut o = Ordered(vec![]);
     let h = &m.header;
     let mut hd = Map::new();
     if f.version {
@@ -194,7 +198,7 @@ pub fn model(m: &M2Model, f: &Fields) -> Value {
     o.insert("global_sequences".into(), json!(m.global_sequences));
     o.insert(
         "sequences".into(),
-        Value::Array(m.animations.iter().map(|a| seq(a, f)).collect()),
+        Value::Array(m.animations.iter().map(|a| seq(a, f, lenient)).collect()),
     );
     o.insert("animation_lookup".into(), json!(m.animation_lookup));
     o.insert(
@@ -507,7 +511,9 @@ pub fn model(m: &M2Model, f: &Fields) -> Value {
             "index": e.event_index, "ranges": hx(&e.ranges), "timestamps": hx(&e.timestamps),
         })).collect::<Vec<_>>()),
     );
-    o.insert("keyframes".into(), Value::Object(k));
+    for (kk, vv) in k {
+        o.insert(format!("keyframes.{kk}"), vv);
+    }
 
     if f.embedded_skins {
         o.insert(
@@ -520,7 +526,54 @@ pub fn model(m: &M2Model, f: &Fields) -> Value {
             })).collect::<Vec<_>>()),
         );
     }
-    Value::Object(o)
+    // writer order
+    const ORDER: [&str; 40] = [
+        "header", "name", "global_sequences", "sequences", "animation_lookup", "bones",
+        "keyframes.bones", "key_bone_lookup", "vertices", "textures", "materials",
+        "bone_lookup_table", "texture_lookup_table", "texture_units", "transparency_lookup_table",
+        "texture_animation_lookup", "bounding_triangles", "bounding_vertices", "bounding_normals",
+        "attachment_lookup_table", "camera_lookup_table", "embedded_skins", "particle_emitters",
+        "keyframes.particles", "ribbon_emitters", "keyframes.ribbons", "texture_animations",
+        "keyframes.texture_animations", "color_animations", "keyframes.color_animations",
+        "transparency_animations", "keyframes.transparency_animations", "events",
+        "keyframes.events", "attachments", "keyframes.attachments", "cameras", "keyframes.cameras",
+        "lights", "keyframes.lights",
+    ];
+    let mut v = o.0;
+    v.sort_by_key(|(k, _)| ORDER.iter().position(|o| o == k).unwrap_or(usize::MAX));
+    v
+}
+
+/// first difference between two ordered section lists
+pub fn diff_sections(want: &[(String, Value)], got: &[(String, Value)]) -> Option<Diff> {
+    for ((kw, vw), (kg, vg)) in want.iter().zip(got) {
+        assert_eq!(kw, kg, "canon sections out of step");
+        if let Some(mut d) = diff(vw, vg) {
+            let sep = if d.path.is_empty() || d.path.starts_with('[') || d.path.starts_with('.') { "" } else { "." };
+            d.path = format!("{kw}{sep}{}", d.path);
+            d.generic = format!("{kw}{sep}{}", d.generic);
+            return Some(d);
+        }
+    }
+    assert_eq!(want.len(), got.len(), "canon section count");
+    None
+}
+
+struct Ordered(Vec<(String, Value)>);
+impl Ordered {
+    fn insert(&mut self, k: String, v: Value) {
+        self.0.push((k, v));
+    }
+}
+
+pub const ANY: &str = "<unspecified>";
+
+fn opt(v: Option<Value>, lenient: bool) -> Value {
+    match v {
+        Some(x) => x,
+        None if lenient => json!(ANY),
+        None => Value::Null,
+    }
 }
 
 // ---------------------------------------------------------------------------------------
@@ -707,6 +760,9 @@ pub fn diff(want: &Value, got: &Value) -> Option<Diff> {
                 None
             }
             _ => {
+                if w.as_str() == Some(ANY) {
+                    return None;
+                }
                 if w != g {
                     Some(Diff {
                         path: path.clone(),
